@@ -267,7 +267,7 @@ Print Assumptions C10_upload_once_only_single_attempt.
 (* the code as it is for a caller-supplied GetFileContent that returns the same plain reader on
    every call (the caller's contract, see design.d/C10.md): the retry carries a zero-length file *)
 Theorem C10_upload_custom_plain_partial : forall detect chunked param name content,
-  mp_attempts file_read detect chunked 2 0 [] [mkFile param name FCustomPlain content false] =
+  mp_attempts file_read detect chunked 2 0 ([], []) [mkFile param name FCustomPlain content false] =
   ([([PFile param name (detect (pad512 content)) content], true);
     ([PFile param name (detect (pad512 [])) []], true)], false).
 Proof. exact upload_custom_plain_partial. Qed.
@@ -277,7 +277,7 @@ Print Assumptions C10_upload_custom_plain_partial.
    zero-length file *)
 Theorem C10_upload_reader_pinned_refuted : forall detect param name kind content,
   kind = FSeekReader \/ kind = FPlainReader ->
-  mp_attempts file_read_pinned detect false 2 0 [] [mkFile param name kind content false] =
+  mp_attempts file_read_pinned detect false 2 0 ([], []) [mkFile param name kind content false] =
   ([([PFile param name (detect (pad512 content)) content], true);
     ([PFile param name (detect (pad512 [])) []], true)], false).
 Proof. exact upload_reader_pinned_refuted. Qed.
